@@ -23,7 +23,7 @@ def run(tier, seed, replay=None):
         ck.mc(DIR, "Simplex", "MC_simplex3.cfg")
         ck.mc(DIR, "Simplex", "NC_simplex.cfg", expect_violation="BasisFeasible")
         if tier == "thorough":
-            ck.mc(DIR, "Simplex", "MC_simplex4.cfg", timeout=3000)
+            ck.mc(DIR, "Simplex", "MC_simplex4.cfg", timeout=14400)
         wd = tlc.scratch("exp-")
         f = os.path.join(wd, "lp.ndjson")
         r = tlc.run_tlc(os.path.join(tlc.SPECS, DIR), "LpExport", "LpExport.cfg", env={"EXPORT_FILE": f})
@@ -44,7 +44,7 @@ def run(tier, seed, replay=None):
             what = "noreturn" if isinstance(r, dict) and r.get("__noreturn__") else "raise"
             r = {"A": c["A"], "b": c["b"], "c": c["c"], "m": len(c["b"]), "n": len(c["c"]), "cden": c.get("cden", 1), "input": c, "events": [{"e": what, "solver": "worker", "what": "WorkerCrash"}]}
         trs.append(r)
-    vs = ck.validate(DIR, "LpTrace", trs, "solve_lp and solve_lp_interior, minimize and maximize", timeout=3000)
+    vs = ck.validate(DIR, "LpTrace", trs, "solve_lp and solve_lp_interior, minimize and maximize", timeout=14400)
     ck.classify(trs, vs, nontrivial=lambda t, v: t["m"] * t["n"] >= 2)
     for c, v in zip(cases[:nexp], vs[:nexp]):
         if v.get("smin") != c["expect_smin"]:
@@ -64,7 +64,7 @@ def run(tier, seed, replay=None):
     st = [x for r in run_tasks("lp", "run_lp_steps", sc, timeout=20) if isinstance(r, dict) for x in r.get("steps", [])]
     if len(st) < len(sc) // 2:
         raise tlc.MachineryError("simplex step traces could not be recorded (%d from %d LPs)" % (len(st), len(sc)))
-    sv = ck.validate(DIR, "SimplexSteps", st, "phase-2 pivot sequences of solve_lp", timeout=3000)
+    sv = ck.validate(DIR, "SimplexSteps", st, "phase-2 pivot sequences of solve_lp", timeout=14400)
     for v in sv:
         for d in v.get("div", []):
             ck.divergences["simplex_step:" + d] = ck.divergences.get("simplex_step:" + d, 0) + 1
